@@ -257,8 +257,9 @@ func c05Dialects(c *h.Ctx) error {
 		if len(names) < 2 {
 			aspect = fmt.Sprintf("layout:n=%d", len(names))
 		}
-		// MS-CIFS requires at least one dialect (ByteCount >= 2): the empty list is outside the stated domain -> drift
-		empty := len(names) == 0
+		// The property quantifies over "every number (0..N) of negotiated dialects": with no dialect there is no format
+		// byte and no terminator, i.e. the encoding is empty (a judged case, not drift).
+		empty := false
 		if p != "" || merr != nil {
 			smbFail(c, empty, "dialects.Dialects.Marshal", "marshal-error", fmt.Sprintf("%v %s", merr, p), sample)
 		} else if !bytes.Equal(lib, k.Wire) {
